@@ -3,6 +3,7 @@ package main
 // Ghost state: variables declared in the contract, updated at named sites.
 
 import (
+	"os"
 	"fmt"
 	"go/types"
 	"sort"
@@ -76,6 +77,90 @@ func (fx *FnCtx) initGhost(st *State) {
 	for i, c := range calls {
 		fx.appendSites[c] = i
 	}
+	// number the stores through pointers (not to local variables) in source order
+	fx.storeSites = map[ssa.Instruction]int{}
+	var stores []*ssa.Store
+	for _, b := range fx.fn.Blocks {
+		for _, ins := range b.Instrs {
+			if s, ok := ins.(*ssa.Store); ok {
+				if a, isAlloc := s.Addr.(*ssa.Alloc); isAlloc && !a.Heap {
+					continue
+				}
+				stores = append(stores, s)
+			}
+		}
+	}
+	sort.SliceStable(stores, func(i, j int) bool { return stores[i].Pos() < stores[j].Pos() })
+	for i, c := range stores {
+		fx.storeSites[c] = i
+	}
+	// sites named by their source line: at stmt "<text of the line>" fires after the last store
+	// (or append call, if the line has no store through a pointer) that the line compiles to
+	fx.stmtSites = map[ssa.Instruction]string{}
+	wanted := map[string]bool{}
+	for _, ga := range fx.fc.GhostAt {
+		if strings.HasPrefix(ga.Site, "stmt ") {
+			wanted[ga.Site] = false
+		}
+	}
+	if len(wanted) > 0 {
+		last := map[string]ssa.Instruction{}
+		consider := func(ins ssa.Instruction) {
+			pos := fx.V.fset.Position(ins.Pos())
+			if !pos.IsValid() {
+				return
+			}
+			site := "stmt \"" + strings.Join(strings.Fields(sourceLine(pos.Filename, pos.Line)), " ") + "\""
+			if _, ok := wanted[site]; !ok {
+				return
+			}
+			if prev, ok := last[site]; ok {
+				_, prevStore := prev.(*ssa.Store)
+				_, curStore := ins.(*ssa.Store)
+				if prevStore && !curStore {
+					return
+				}
+			}
+			last[site] = ins
+		}
+		for _, b := range fx.fn.Blocks {
+			for _, ins := range b.Instrs {
+				switch t := ins.(type) {
+				case *ssa.Store:
+					if a, isAlloc := t.Addr.(*ssa.Alloc); isAlloc && !a.Heap {
+						continue
+					}
+					if _, isIdx := t.Addr.(*ssa.IndexAddr); isIdx {
+						if al, ok := t.Addr.(*ssa.IndexAddr).X.(*ssa.Alloc); ok && !al.Heap {
+							continue // building a varargs array
+						}
+					}
+					consider(ins)
+				case *ssa.Call:
+					if bi, ok := t.Call.Value.(*ssa.Builtin); ok && bi.Name() == "append" {
+						consider(ins)
+					}
+				}
+			}
+		}
+		for site, ins := range last {
+			fx.stmtSites[ins] = site
+			wanted[site] = true
+		}
+		for site, found := range wanted {
+			if !found {
+				fx.fail("ghost site %s does not exist (no store or append on a line with that text)", site)
+			}
+		}
+	}
+	if os.Getenv("HVC_SITES") != "" && fx.topLevel {
+		for i, c := range calls {
+			fmt.Printf("hvc: site append#%d at %s\n", i, fx.V.fset.Position(c.Pos()))
+		}
+		for i, c := range stores {
+			fmt.Printf("hvc: site store#%d at %s\n", i, fx.V.fset.Position(c.Pos()))
+		}
+	}
 	// every site must exist
 	for _, ga := range fx.fc.GhostAt {
 		switch {
@@ -86,6 +171,13 @@ func (fx *FnCtx) initGhost(st *State) {
 			if n >= len(calls) {
 				fx.fail("ghost site %s does not exist (function has %d append calls)", ga.Site, len(calls))
 			}
+		case strings.HasPrefix(ga.Site, "store#"):
+			var n int
+			fmt.Sscanf(ga.Site, "store#%d", &n)
+			if n >= len(stores) {
+				fx.fail("ghost site %s does not exist (function has %d stores through pointers)", ga.Site, len(stores))
+			}
+		case strings.HasPrefix(ga.Site, "stmt "):
 		case strings.HasPrefix(ga.Site, "loop "):
 		default:
 			fx.fail("unknown ghost site %q", ga.Site)
@@ -163,6 +255,20 @@ func (fx *FnCtx) ghostAssignedInLoop(li *loopInfo) []string {
 					inside = true
 				}
 			}
+		case strings.HasPrefix(ga.Site, "store#"):
+			var n int
+			fmt.Sscanf(ga.Site, "store#%d", &n)
+			for ins, k := range fx.storeSites {
+				if k == n && li.blocks[ins.Block()] {
+					inside = true
+				}
+			}
+		case strings.HasPrefix(ga.Site, "stmt "):
+			for ins, site := range fx.stmtSites {
+				if site == ga.Site && li.blocks[ins.Block()] {
+					inside = true
+				}
+			}
 		case strings.HasPrefix(ga.Site, "loop "):
 			var n int
 			fmt.Sscanf(ga.Site, "loop %d back", &n)
@@ -185,4 +291,79 @@ func (fx *FnCtx) ghostAssignedInLoop(li *loopInfo) []string {
 	}
 	sort.Strings(out)
 	return out
+}
+
+// siteLookup resolves the name of a local variable as seen just before instruction at: the nearest
+// preceding debug reference in its block, then in the dominating blocks (innermost scope wins).
+func (fx *FnCtx) siteLookup(st *State, at ssa.Instruction) func(string) (SV, bool) {
+	return func(name string) (SV, bool) {
+		find := func(instrs []ssa.Instruction) (SV, bool) {
+			for i := len(instrs) - 1; i >= 0; i-- {
+				switch t := instrs[i].(type) {
+				case *ssa.DebugRef:
+					obj := t.Object()
+					if obj == nil || obj.Name() != name {
+						continue
+					}
+					if _, isVar := obj.(*types.Var); !isVar {
+						continue
+					}
+					if t.IsAddr {
+						if v, ok := fx.vals[t.X]; ok {
+							return SV{V: fx.Load(st, fx.asPtr(v))}, true
+						}
+						continue
+					}
+					if v, ok := fx.vals[t.X]; ok {
+						return SV{V: v}, true
+					}
+					if _, isConst := t.X.(*ssa.Const); isConst {
+						return SV{V: fx.val(t.X)}, true
+					}
+				case *ssa.Phi:
+					if t.Comment == name {
+						if v, ok := fx.vals[t]; ok {
+							return SV{V: v}, true
+						}
+					}
+				}
+			}
+			return SV{}, false
+		}
+		b := at.Block()
+		var before []ssa.Instruction
+		for _, ins := range b.Instrs {
+			if ins == at {
+				break
+			}
+			before = append(before, ins)
+		}
+		if v, ok := find(before); ok {
+			return v, true
+		}
+		for d := b.Idom(); d != nil; d = d.Idom() {
+			if v, ok := find(d.Instrs); ok {
+				return v, true
+			}
+		}
+		return fx.lookupEntryVar(name, st)
+	}
+}
+
+var sourceCache = map[string][]string{}
+
+// sourceLine returns line n (1-based) of a source file.
+func sourceLine(file string, n int) string {
+	lines, ok := sourceCache[file]
+	if !ok {
+		data, err := os.ReadFile(file)
+		if err == nil {
+			lines = strings.Split(string(data), "\n")
+		}
+		sourceCache[file] = lines
+	}
+	if n < 1 || n > len(lines) {
+		return ""
+	}
+	return lines[n-1]
 }
